@@ -638,3 +638,115 @@ class C06Hold(Base):
         d['_state'] = {'H': sorted(self.H), 'hp': self.hp,
                        'exempt': sorted(self.released_manual)}
         return d
+
+
+def gt_children(gt, name, point, output):
+    """Instances (child, q) with an atom on (name, point, output)."""
+    out = set()
+    for sec in gt['sections']:
+        for ar in sec['arrows']:
+            for a in wfgen.atoms(ar['lhs']):
+                if a[1] != name:
+                    continue
+                if not (a[3] == output or (a[3] == 'finished' and output in
+                                           ('succeeded', 'failed'))):
+                    continue
+                for q in sec['points']:
+                    if wfgen.atom_point(a, q) == point:
+                        for c in ar['rhs']:
+                            out.add((c, q))
+    return out
+
+
+class C08Flows(Base):
+    NAME = 'c08'
+    PID = 'C08'
+
+    def __init__(self, case, phase):
+        super().__init__(case, phase)
+        st = (phase.get('carry') or {}).get('c08') or {}
+        self.max_flow = st.get('max_flow', 0)
+        self.used: Set[int] = set(st.get('used', []))
+        self.done: Dict[str, Set[int]] = {
+            k: set(v) for k, v in (st.get('done') or {}).items()}
+        self.spawn_stack = []
+
+    def note_flows(self, flows):
+        for f in flows:
+            self.used.add(f)
+            if f > self.max_flow:
+                self.max_flow = f
+
+    def on_event(self, ev):
+        k = ev['k']
+        if k == 'FLOW_NEW':
+            if ev['requested'] is None:
+                self.n['new_flow_allocations'] += 1
+                if ev['returned'] in self.used:
+                    self.v('flow-number-reused',
+                           f'new flow got number {ev["returned"]}, already '
+                           f"used in this workflow's history "
+                           f'{sorted(self.used)}', ev)
+            self.note_flows([ev['returned']])
+        elif k in ('POOL_ADD',):
+            self.note_flows(ev['task']['flows'])
+        elif k == 'STATE':
+            self.note_flows(ev.get('flows') or [])
+        elif k == 'SPAWN_IN':
+            self.spawn_stack.append(ev)
+        elif k == 'SPAWN_OUT':
+            sin = self.spawn_stack.pop() if self.spawn_stack else None
+            if not sin or not sin['flows'] or sin['flow_wait']:
+                return
+            p, n = split_id(sin['id'])
+            if n not in self.gt['tasks']:
+                return
+            out = self.msg_to_output(n, sin['output'])
+            if out is None:
+                return
+            pool = self.drv.schd.pool
+            for c, q in gt_children(self.gt, n, p, out):
+                t = pool._get_task_by_id(f'{q}/{c}')
+                if t is None:
+                    continue
+                self.n['child_flow_checks'] += 1
+                if not set(sin['flows']) <= set(t.flow_nums):
+                    self.v('child-missing-parent-flows',
+                           f'{q}/{c} has flows {sorted(t.flow_nums)} after '
+                           f'{sin["id"]}:{out} (flows {sin["flows"]}) '
+                           'spawned/updated it', {'spawn': sin})
+                if len(t.flow_nums) > len(sin['flows']):
+                    self.n['merges_seen'] += 1
+        elif k == 'POOL_REMOVE':
+            t = ev['task']
+            if t['status'] in FINAL and ev.get('reason') in (
+                    None, 'completed') and t['name'] in self.gt['tasks'] \
+                    and wfgen.is_complete(self.gt, t['name'],
+                                          set(t['outputs'])):
+                self.done.setdefault(t['id'], set()).update(t['flows'])
+        elif k == 'CMD' and ev['cmd'] == 'remove_tasks':
+            # removal erases history: the task may run again
+            from vlib.e1.monitors import match_ids
+            for tid in match_ids(ev['args'].get('tasks') or [],
+                                 ev.get('pool') or [], self.gt):
+                self.done.pop(tid, None)
+        elif k == 'PREP':
+            for t in ev['tasks']:
+                if t['status'] == 'preparing' or t['manual']:
+                    continue
+                tid = t['id']
+                if tid in self.drv.ledger.manual:
+                    continue
+                self.n['rerun_checks'] += 1
+                again = self.done.get(tid, set()) & set(t['flows'])
+                if again:
+                    self.v('completed-task-rerun-in-same-flow',
+                           f'{tid} enters job preparation in flow(s) '
+                           f'{sorted(again)} in which it already finished '
+                           'complete, without manual triggering', t)
+
+    def summary(self, drv):
+        d = dict(self.n)
+        d['_state'] = {'max_flow': self.max_flow, 'used': sorted(self.used),
+                       'done': {k: sorted(v) for k, v in self.done.items()}}
+        return d
